@@ -942,7 +942,12 @@ def config_ops(rng, count):
 def gen(rng, tier):
     thorough = tier == "thorough"
     ops = corpus()
-    entries = _ENTRIES or _dump()
+    entries = _ENTRIES
+    if not entries:
+        try:
+            entries = _dump()
+        except Broken:
+            entries = []      # a factory that throws is reported by the `factory ids` lines below
     ops += factory_ops(rng, entries, 3 if thorough else 1)
     specs = main_specs()
     deep = 6 if thorough else 4
